@@ -73,7 +73,9 @@ var paths = []string{"", "/", "/publicKey", "/publicKey/0", "/publicKey/0/id", "
 	// member names with line breaks and other blanks below a protected member (a pattern matcher may stop at a line break)
 	"/publicKey/0/a\nb", "/service/0/a\nb", "/publicKey/0/\n", "/publicKey/0/a\rb", "/service/0/a\u2028b", "/publicKey/0/ "}
 
-var values = []string{`{"x":1}`, `"s"`, `[{"id":"evil","type":"T"}]`}
+// (the last value is a whole document of its own: written at the root or anywhere else it must not bring keys or services with it)
+var values = []string{`{"x":1}`, `"s"`, `[{"id":"evil","type":"T"}]`,
+	`{"x":1,"publicKey":[{"id":"evil","type":"JsonWebKey2020","purposes":["authentication"],"publicKeyJwk":{"kty":"EC","crv":"P-256","x":"bksgV0ryn2qqXYl89gHcCp-uJ7C_8qHai0m7nZJg6Wk","y":"YdSW7qhsTyZG1-qtCJax0j6TfFTv0EZZwKw8WK-hYhM"}}],"service":[{"id":"evil","type":"T","serviceEndpoint":"https://evil.example/"}]}`}
 
 // isPrefix reports whether pointer a is a token prefix of (or equal to) pointer b.
 func isPrefix(a, b string) bool {
@@ -268,7 +270,7 @@ func Worker(args []string) {
 }
 
 func Run(r *core.Run) {
-	r.Rule = "3 documents x RFC 6902 patch lists over 6 operation kinds x 32 path pointers x 32 from pointers x 3 values: all single operations; pairs (copy|move ; any operation at or below that operation's target or source, or moving/copying from there) in quick, all ordered pairs in thorough; " +
+	r.Rule = "3 documents x RFC 6902 patch lists over 6 operation kinds x 32 path pointers x 32 from pointers x 4 values: all single operations; pairs (copy|move ; any operation at or below that operation's target or source, or moving/copying from there) in quick, all ordered pairs in thorough; " +
 		"oracle: validated and applied => publicKey and service members deep-equal to the input's; distinct = patch lists that validate and apply (counted); non-trivial = the list validates and applies"
 	r.Assumptions = []string{"operations whose from is a token prefix of their path (copy/move into own subtree, in the RFC 6902 library's reading of the pointers) are left to C19 (they can kill the process)",
 		"a panic inside ApplyPatches counts as not applied here (C19 judges it); the enumeration runs in child processes so that a fatal error of the code under test costs one item, not the check"}
